@@ -478,6 +478,10 @@ func ruleCtxShare(w *World, r *Report) {
 			}
 			n++
 			key := "go in " + fname(fn)
+			if reaches[body] && privilegeOnlyOnOwnContexts(w) {
+				r.ok("CTX-SHARE", key, w.PosOf(in), "shared context, and a grant of the privilege is reachable — but the privilege is only ever granted on a context made for the hook in the granting function (PRIV-LOCAL holds), never on one that is shared")
+				return
+			}
 			if reaches[body] {
 				r.violation("CTX-SHARE", key, w.PosOf(in), "the goroutines of this fan-out share one Context and can reach Context.grantPrivilege: a sibling skips the state lock while one of them holds the privilege")
 			} else {
@@ -494,4 +498,37 @@ func isPtrToPtrContext(t types.Type) bool {
 		return false
 	}
 	return isNamed(p.Elem(), modPath+"/core", "Context")
+}
+
+// privilegeOnlyOnOwnContexts: the premise of PRIV-LOCAL, as a predicate: every grantPrivilege call has the result of
+// SubContext as its receiver, and SubContext does not store into the new context's privilege.
+func privilegeOnlyOnOwnContexts(w *World) bool {
+	grant := w.TryMethod("core", "Context", "grantPrivilege")
+	sub := w.TryMethod("core", "Context", "SubContext")
+	if grant == nil || sub == nil {
+		return false
+	}
+	ok := true
+	for _, fn := range w.Funcs {
+		if !w.IsRulio(fn) || isTestFile(w, fn) {
+			continue
+		}
+		allInstrs(fn, func(in ssa.Instruction) {
+			c := callOf(in)
+			if c == nil || c.StaticCallee() != grant || len(c.Args) == 0 {
+				return
+			}
+			if cc, isCall := resolveSpill(c.Args[0]).(*ssa.Call); !isCall || cc.Common().StaticCallee() != sub {
+				ok = false
+			}
+		})
+	}
+	allInstrs(sub, func(in ssa.Instruction) {
+		if st, isSt := in.(*ssa.Store); isSt {
+			if _, f, _, isF := fieldOf(st.Addr); isF && f == "privilege" {
+				ok = false
+			}
+		}
+	})
+	return ok
 }
